@@ -24,6 +24,9 @@ def amax(x):
 _amax = amax
 
 
+CHAIN_PARTS = {}
+
+
 def kinds(d):
     return ALL_KINDS_2D if d == 2 else ALL_KINDS_3D
 
@@ -180,8 +183,11 @@ def make(rng, kind, d=2):
                 return mt.TransformChain(members[:cut] + [mt.TransformChain(members[cut:])])
             return mt.TransformChain(members)
         chain = assemble([p[0] for p in parts])
-        chain._vf_parts = parts          # (live member, recipe) pairs, read by histories that reparameterise a member
-        chain._vf_assemble = assemble
+        # (live member, recipe) pairs, read by histories that reparameterise a member - kept beside the object, not on it
+        # (closures cannot be pickled, and the object must stay what menpo built)
+        if len(CHAIN_PARTS) > 2000:
+            CHAIN_PARTS.clear()
+        CHAIN_PARTS[id(chain)] = (chain, parts, assemble)
         return chain, (lambda: assemble([p[1]() for p in parts]))
     if kind.startswith("identity:"):
         import menpo.transform as mt2
